@@ -862,7 +862,9 @@ def _analyze_directory_for_import(root, project, schema):
         if not schema.startswith(root):
             schema = os.path.normpath(os.path.join(root, schema))
         schema_function = _with_consistency_check(
-            _make_path_based_schema_function(schema, literal_prefix=root),
+            _make_path_based_schema_function(
+                schema, literal_prefix=os.path.normpath(root)
+            ),
             read_statepoint_file,
         )
     else:
